@@ -647,6 +647,7 @@ def run(ctx):
     C10_helpers.zigzag(ctx, "C01.R7")
     C10_helpers.varint_parse_form(ctx, "C01.R7")
     C03.unit_table_check(ctx, "C01.R7")
+    C03.pad_content(ctx, "C01.R7")
     fi, paths = own_method_paths(ctx, "NullTerminated", "_parse")
     C08.null_terminated(ctx, fi, paths, "C01.R7")
     fi, paths = own_method_paths(ctx, "NullStripped", "_parse")
